@@ -72,6 +72,10 @@ func (p *Prog) leafInputs(names map[types.Object]string, widths map[string]int, 
 }
 
 func recvObj(p *Prog, fd *ast.FuncDecl) types.Object {
+	if p.asMethod[fd] {
+		// a method rewritten as a function of its former receiver
+		return p.Info.Defs[fd.Type.Params.List[0].Names[0]]
+	}
 	if fd.Recv == nil || len(fd.Recv.List) != 1 || len(fd.Recv.List[0].Names) != 1 {
 		return nil
 	}
@@ -87,6 +91,9 @@ func paramObjs(p *Prog, fd *ast.FuncDecl) []types.Object {
 		for _, n := range f.Names {
 			out = append(out, p.Info.Defs[n])
 		}
+	}
+	if p.asMethod[fd] && len(out) > 0 {
+		out = out[1:]
 	}
 	return out
 }
@@ -162,14 +169,26 @@ func ruleLayoutPredicates(c *Ctx) {
 		if fd == nil {
 			continue
 		}
-		res := singleReturn(fd)
-		if len(res) != 1 {
-			c.undecided("pred.shape:"+name, fd, "predicate body is not a single mask test; nothing else may influence the class")
+		bp, why := p.evalBitPred(fd)
+		if why != "" || bp.never || len(bp.negs) != 0 {
+			c.undecided("pred.shape:"+name, fd, "predicate is not a single test of bits of d.hi: "+why+" "+bp.String())
 			continue
 		}
-		m, v, ok := p.maskTest(res[0], recvObj(p, fd))
-		if !ok {
-			c.undecided("pred.shape:"+name, fd, "predicate body is not `d.hi & M == V`")
+		var m, v uint64
+		okBits := true
+		for k, bit := range bp.pos {
+			var idx int
+			if _, err := fmt.Sscanf(k, "hi[%d]", &idx); err != nil {
+				okBits = false
+				continue
+			}
+			m |= 1 << uint(idx)
+			if bit == '1' {
+				v |= 1 << uint(idx)
+			}
+		}
+		if !okBits {
+			c.undecided("pred.shape:"+name, fd, "predicate looks at bits outside d.hi: "+bp.String())
 			continue
 		}
 		preds[name] = classPred{m, v}
@@ -200,14 +219,14 @@ func ruleLayoutPredicates(c *Ctx) {
 	}
 	// IsZero: form 2 (steering 11) is never zero; otherwise coefficient hi[48..0]‖lo == 0.
 	if fd := c.fn("Decimal.IsZero"); fd != nil {
-		env := p.newCanonEnv(fd)
-		got := env.canonStmts(fd.Body.List)
 		steer := uint64(3) << 61
 		coef := uint64(1)<<bidForm1ExpL - 1
-		want1 := fmt.Sprintf("if(((K(%d)&R.hi)==K(%d))){return K(false)}else{return (((K(%d)&R.hi)==K(0))&&(K(0)==R.lo))}", steer, steer, coef)
-		want2 := fmt.Sprintf("if(((K(%d)&R.hi)==K(%d))){return K(false)};return (((K(%d)&R.hi)==K(0))&&(K(0)==R.lo))", steer, steer, coef)
-		c.check(got == want1 || got == want2, "pred:Decimal.IsZero", fd, "zero iff not form 2 and hi[48..0]‖lo == 0",
-			"IsZero must be: steering bits 11 -> false, else lo == 0 && hi & (2^49-1) == 0; body is "+got)
+		bp, why := p.evalBitPred(fd)
+		wantPos, _ := wantBits("hi", coef, 0).merge(wantBits("lo", ^uint64(0), 0))
+		okZ := why == "" && !bp.never && bp.pos.equal(wantPos) && len(bp.negs) == 1 && bp.negs[0].equal(wantBits("hi", steer, steer))
+		// `steering != 11` may also be folded away when it is implied... it is not: bits 62..61 are outside the coefficient mask
+		c.check(okZ, "pred:Decimal.IsZero", fd, "zero iff not form 2 and hi[48..0]‖lo == 0",
+			"IsZero must be: steering bits 11 -> false, else lo == 0 && hi & (2^49-1) == 0; it is "+why+" "+bp.String())
 	}
 	// Partition: enumerate hi[63..58] × coefficient zero / non-zero and require
 	// exactly one of NaN / Inf / zero / finite-non-zero, isSpecial = NaN or Inf.
